@@ -166,6 +166,8 @@ def run_job(job):
 
 
 def run_jobs(jobs, procs=16):
+    import kdriver as _K
+    jobs = _K.filter_buildable(jobs)
     if not jobs:
         return []
     ctx = mp.get_context('fork')
